@@ -184,6 +184,7 @@ class World:
         self.extra_roots: list[Any] = []
         pcfg.ID_DIGEST_SIZE = cfg["digest"]
         pcfg.RUNTIME_TYPE_CHECK = cfg["rtc"]
+        pcfg.TRACE_LOGGING = bool(cfg.get("trace_logging", False))
         FAULTS.disarm()
         if len(NODE_REGISTRY) != 0:
             raise HarnessError("registry not pristine at run start")
@@ -1541,6 +1542,7 @@ def make_config(rseed: int, prop: str, tier: str, faults: bool) -> dict[str, Any
         "weights": weights,
         "formats": r.sample(list(FORMATS), r.choice([1, 2, 4])),
         "dyn_redefine": "Dyn" in leafs and r.random() < 0.6,
+        "trace_logging": r.random() < 0.1,
         "ser_faults": prop in ("C03", "C10", "C04"),
     }
 
